@@ -5,6 +5,7 @@ CONSTANTS
   MaxDocsA = 2
   MaxEvA = 1
   Rich = TRUE
+  Side = FALSE
 INIT MCInit
 NEXT Next
 INVARIANTS TypeOK StdoutIsRenderedOutputs StderrIsDiagnostics EndState StatusBookkeeping HaltStops AllInputsProcessed StatusTable
